@@ -1,16 +1,15 @@
 ---------------------------- MODULE MC_PathRefine ----------------------------
-(* Path.get_refined as its loop (one action per original point), then Path.get_K_list as its batch loop, for every
-   small path (points, labels dict, breaks list), refinement factor and k_batch inside the constants.  The refined
-   path is checked against the loop-free statement (original point i sits at RefIdx(i) with its label / break,
-   uniform sub-division, path coordinate unchanged); the batches must concatenate to the path and, in any order,
-   be mapped back to path order by self_to_path. *)
+(* Path.get_refined as its loop (one action per original point) for every small path (points, labels dict, breaks
+   list) and refinement factor inside the constants.  The refined path is checked against the loop-free statement
+   (original point i sits at RefIdx(i) with its label / break, uniform sub-division, path coordinate unchanged). *)
 EXTENDS PathSpec
 
 CONSTANTS Points,     \* set of path points <<x, y, z, d>>
           MaxLen,     \* paths of 1..MaxLen points
-          Factors, KBatch,
+          Factors,
           LatA,
-          NodePaths   \* additional inputs: paths produced by FromNodes
+          NodePaths,  \* additional inputs: paths produced by FromNodes
+          RefineAcrossBreaks   \* FALSE: the code; TRUE: a plausible wrong variant that sub-divides the step over a break too
 
 PointsQuick == {<<0, 0, 0, 1>>, <<1, -1, 2, 2>>}
 PointsMid == {<<0, 0, 0, 1>>, <<1, -1, 2, 2>>, <<2, 0, 1, 3>>}
@@ -21,63 +20,46 @@ NodePathsDef ==
    { strip(FromNodes(<<<<0, 0, 0>>, <<1, 0, 0>>, <<1, 1, 0>>>>, <<"G", "X", "M">>, SpecList(<<3, 4>>))),
      strip(FromNodes(<<<<0, 0, 0>>, <<1, 0, 2>>, NoneNode, <<0, 1, 1>>, <<-1, 1, 0>>>>, <<"G", "X", "Y", "G">>, SpecList(<<4, 3>>))),
      strip(FromNodes(<<<<1, 1, 1>>, NoneNode, <<0, 0, 0>>, <<2, 0, 0>>>>, <<"R", "G", "X">>, SpecList(<<5>>))) }
+NoPaths == {}
 THR2 == <<3, 7>>      \* break_thresh^2 (never equal to a squared step: 7 divides no denominator)
 
-VARIABLES P, f, i, r, pc, kb, ik, bs, aux
-vars == <<P, f, i, r, pc, kb, ik, bs, aux>>
+VARIABLES P, f, i, r, pc, aux
+vars == <<P, f, i, r, pc, aux>>
 
 LabelName(j) == "p" \o ToString(j)
 ArbPaths == UNION {
-   { [K |-> k, labels |-> [m \in 1..Len(SetToSortSeq(L, <)) |-> <<SetToSortSeq(L, <)[m], LabelName(SetToSortSeq(L, <)[m])>>],
-      breaks |-> SetToSortSeq(B, <)] : k \in [1..n -> Points], L \in SUBSET (0..(n - 1)), B \in SUBSET (0..(n - 1)) }
+   { [K |-> k, labels |-> [m \in 1..Len(SortedSeq(L)) |-> <<SortedSeq(L)[m], LabelName(SortedSeq(L)[m])>>],
+      breaks |-> SortedSeq(B)] : k \in [1..n -> Points], L \in SUBSET (0..(n - 1)), B \in SUBSET (0..(n - 1)) }
    : n \in 1..MaxLen }
 
 Init == /\ P \in ArbPaths \cup NodePaths /\ PathOK(P)
         /\ f \in Factors
-        /\ i = 0 /\ r = RefInit /\ pc = "refine" /\ kb = 0 /\ ik = 0 /\ bs = <<>> /\ aux = <<>>
+        /\ i = 0 /\ r = RefInit /\ pc = "refine" /\ aux = <<>>
 
 (* for i in range(last_point_index) *)
+RefStepV0(rr, j) == [RefAppend(rr, P, j) EXCEPT !.K = @ \o [t \in 1..(f - 1) |-> Interp(P.K[j + 1], P.K[j + 2], t, f)]]
 KeepBreak == /\ pc = "refine" /\ i < Len(P.K) - 1 /\ i \in BreakSet(P)
-             /\ r' = RefStep(r, P, i, f) /\ i' = i + 1
-             /\ UNCHANGED <<P, f, pc, kb, ik, bs, aux>>
+             /\ r' = (IF RefineAcrossBreaks THEN RefStepV0(r, i) ELSE RefStep(r, P, i, f)) /\ i' = i + 1
+             /\ UNCHANGED <<P, f, pc, aux>>
 Subdivide == /\ pc = "refine" /\ i < Len(P.K) - 1 /\ i \notin BreakSet(P)
              /\ r' = RefStep(r, P, i, f) /\ i' = i + 1
-             /\ UNCHANGED <<P, f, pc, kb, ik, bs, aux>>
+             /\ UNCHANGED <<P, f, pc, aux>>
 LastPoint == /\ pc = "refine" /\ i >= Len(P.K) - 1
-             /\ r' = RefAppend(r, P, Len(P.K) - 1) /\ pc' = "refined"
+             /\ r' = RefAppend(r, P, Len(P.K) - 1) /\ pc' = "done"
              /\ aux' = [steps |-> IF KlineOK(r') THEN KlineSteps(r', LatA, NoThresh) ELSE <<>>,
-                        stepsT |-> IF KlineOK(r') THEN KlineSteps(r', LatA, THR2) ELSE <<>>,
-                        cls |-> PtClass(r'.K)]
-             /\ UNCHANGED <<P, f, i, kb, ik, bs>>
-(* get_K_list(k_batch) on the refined path *)
-ChooseBatch == /\ pc = "refined" /\ kb' \in KBatch /\ ik' = 0 /\ bs' = <<>> /\ pc' = "batch"
-               /\ UNCHANGED <<P, f, i, r, aux>>
-Batch == /\ pc = "batch" /\ ik < Len(r.K)
-         /\ bs' = BatchStep(bs, r, ik, kb) /\ ik' = ik + kb
-         /\ UNCHANGED <<P, f, i, r, pc, kb, aux>>
-BatchEnd == /\ pc = "batch" /\ ik >= Len(r.K) /\ pc' = "done"
-            /\ UNCHANGED <<P, f, i, r, kb, ik, bs, aux>>
-Next == KeepBreak \/ Subdivide \/ LastPoint \/ ChooseBatch \/ Batch \/ BatchEnd
+                        stepsT |-> IF KlineOK(r') THEN KlineSteps(r', LatA, THR2) ELSE <<>>]
+             /\ UNCHANGED <<P, f, i>>
+Next == KeepBreak \/ Subdivide \/ LastPoint
 Spec == Init /\ [][Next]_vars
 
-Refd == pc \in {"refined", "batch", "done"}
-LoopIsOperator == /\ Refd => r = Refined(P, f)
-                  /\ pc = "done" => bs = Batches(r, kb)
+Done == pc = "done"
+LoopIsOperator == Done => r = Refined(P, f)
 (* C29, refinement *)
-InvKeeps == Refd => /\ KeepsPoints(P, f, r) /\ KeepsLabels(P, f, r) /\ KeepsBreaks(P, f, r) /\ RefLength(P, f, r)
+InvKeeps == Done => /\ KeepsPoints(P, f, r) /\ KeepsLabels(P, f, r) /\ KeepsBreaks(P, f, r) /\ RefLength(P, f, r)
                     /\ RefUniform(P, f, r) /\ RefNoBreaks(P, f, r) /\ PathOK(r)
-InvIdentity == Refd /\ f = 1 => SamePath(P, r)
-InvCompose == pc = "refined" => \A g \in Factors : SamePath(Refined(r, g), Refined(P, f * g))
+InvIdentity == Done /\ f = 1 => SamePath(P, r)
+InvCompose == Done => \A g \in Factors : SamePath(Refined(r, g), Refined(P, f * g))
 (* C29, path coordinate *)
-InvKline == Refd /\ KlineOK(P) => /\ KlineOK(r) /\ KlineMonotone(r, LatA) /\ KlineFlatAtBreaks(r, LatA) /\ KlineIsDistance(r, LatA)
+InvKline == Done /\ KlineOK(P) => /\ KlineOK(r) /\ KlineMonotone(r, LatA) /\ KlineFlatAtBreaks(r, LatA) /\ KlineIsDistance(r, LatA)
                                  /\ KlineRefined(P, f, r, LatA) /\ ~ThreshTie(r, LatA, THR2)
-(* C29, batches and the way back to path order *)
-InvBatches == pc = "done" => BatchesConcat(bs, r) /\ BatchesSizes(bs, r, kb)
-Permuted(s, p) == [t \in 1..Len(s) |-> s[p[t]]]
-InvToPath ==
-   pc = "done" /\ Len(bs) <= 4 =>
-      \A p \in Permutations(1..Len(bs)) :
-         LET kp == FlattenSeq(Permuted(bs, p))
-             map == ToPathMap(kp, r.K)
-         IN \A j \in 1..Len(r.K) : PtEquiv(kp[map[j]], r.K[j]) /\ aux.cls[j] = Min({t \in 1..Len(r.K) : PtEquiv(r.K[t], kp[map[j]])})
 =============================================================================
